@@ -70,10 +70,13 @@ func genC08(t *rapid.T) isoCase {
 	if shape >= 5 && shape <= 7 {
 		addWide(t, tree, []string{"long"})
 	}
-	if shape == 8 && hx.Thorough() {
-		// > 1000 directories
+	if shape == 8 {
+		// hundreds of directories (thorough: > 1000)
 		many := hx.Dir("MANY")
-		n := rapid.IntRange(1001, 1400).Draw(t, "manydirs")
+		n := rapid.IntRange(201, 420).Draw(t, "manydirs")
+		if hx.Thorough() {
+			n = rapid.IntRange(1001, 1400).Draw(t, "manydirs-thorough")
+		}
 		for i := 0; i < n; i++ {
 			many.Children = append(many.Children, hx.Dir(fmt.Sprintf("D%04d", i)))
 		}
